@@ -13,7 +13,7 @@ from ..program import AnalysisError, FunctionInfo, fn_nodes, norm
 from ..cfg import cfg_of, CNode
 from ..fold import is_unknown
 from ..spec import tables as T
-from .common import JWE_CONSUME, can_reach_exit, entries, impls, scope_of, sites_calling, succ_by_label, names_in
+from .common import resolve_all, JWE_CONSUME, can_reach_exit, entries, impls, scope_of, sites_calling, succ_by_label, names_in
 
 ZIP = "rfc7516.models:JWEZipModel"
 
@@ -301,6 +301,12 @@ def r17_3(ctx) -> None:
                     if isinstance(v, ast.Subscript) and isinstance(v.slice, ast.Slice) and v.slice.lower is not None and v.slice.upper is not None \
                             and norm(v.slice.lower) == "2" and norm(v.slice.upper) == "-4" and (norm(v.value) == var or v.value is s.node):
                         ok = True
+        # ... and every return hands out the compressor's output (an empty input still becomes a complete DEFLATE stream)
+        sp_ = C.pos_params[1]
+        for r in rets:
+            tx = resolve_all(eng, C, r.ast.value) if r.ast.value is not None else [""]  # type: ignore[union-attr]
+            if not all("zlib.compress" in t_ or ".compress(" in t_ or ".flush(" in t_ for t_ in tx):
+                ok = False
         ctx.check(ok, "R17.3", C, C.node, f"{C.short} :: raw DEFLATE out", "compress() does not emit a raw DEFLATE stream (zlib header/checksum not stripped, no negative wbits)",
                   "zlib.compress(s)[2:-4] or wbits=-15", construct="raw DEFLATE emission")
 
